@@ -52,6 +52,28 @@ class Lit:
         return f"lit({self.v})"
 
 
+class Packed:
+    """1-d array whose consecutive segments have different kinds (the (widths, offsets) vector handed to the action minimiser)"""
+
+    __slots__ = ("kinds",)
+
+    def __init__(self, kinds):
+        out = []
+        for k in kinds:
+            if not out or not (out[-1] == k):
+                out.append(k)
+        self.kinds = tuple(out)
+
+    def __eq__(self, o):
+        return isinstance(o, Packed) and len(o.kinds) == len(self.kinds) and all(a == b for a, b in zip(self.kinds, o.kinds))
+
+    def __hash__(self):
+        return hash(("Packed", len(self.kinds)))
+
+    def __repr__(self):
+        return "packed(" + ", ".join(map(repr, self.kinds)) + ")"
+
+
 @dataclass
 class Obj:
     cls: str
@@ -563,8 +585,18 @@ class KindInference:
             return self.root_scalar(e, args, kw, env, fi)
         if short == "minimize_scalar":
             return self.minimize_scalar(e, args, kw, env, fi)
+        if short == "Bounds" and "optimize" in d:
+            lb = kw.get("lb", args[0] if args else UNK)
+            ub = kw.get("ub", args[1] if len(args) > 1 else UNK)
+            if isinstance(lb, (Dim, Packed)) and isinstance(ub, (Dim, Packed)) and not (lb == ub):
+                self.report("conflict", fi, e, f"lower and upper bounds of different kind: {lb} vs {ub}: `{' '.join(src(e).split())[:100]}`", f"bounds|{lb}|{ub}")
+                return Obj("Bounds")
+            return Obj("Bounds", coeff=lb if isinstance(lb, (Dim, Packed)) else ub)
         if short == "minimize" and "optimize" in d:
             x0 = args[1] if len(args) > 1 else kw.get("x0")
+            bd = kw.get("bounds")
+            if isinstance(bd, Obj) and isinstance(bd.coeff, (Dim, Packed)) and isinstance(x0, (Dim, Packed)) and not (bd.coeff == x0):
+                self.report("conflict", fi, e, f"minimisation variables of kind {x0} with bounds of kind {bd.coeff}", f"minimize-bounds|{x0}|{bd.coeff}")
             f0 = args[0] if args else UNK
             fr = f0.ret if isinstance(f0, Func) else UNK
             tol = kw.get("tol")
@@ -695,11 +727,22 @@ class KindInference:
             return r
         if short in ("concatenate", "append", "vstack", "hstack", "column_stack"):
             parts = []
-            for a in args:
+
+            def flat_parts(a):
                 if isinstance(a, tuple):
-                    parts += list(a)
+                    for x in a:
+                        flat_parts(x)
                 else:
                     parts.append(a)
+
+            for a in args:
+                flat_parts(a)
+            if parts and all(isinstance(p, (Dim, Packed)) for p in parts):
+                flat = []
+                for p in parts:
+                    flat += list(p.kinds) if isinstance(p, Packed) else [p]
+                pk = Packed(flat)
+                return pk.kinds[0] if len(pk.kinds) == 1 else pk
             parts = [p for p in parts if numeric(p)]
             r = UNK
             for p in parts:
